@@ -23,6 +23,7 @@ class ObjTable:
         self.rwlocks = []    # (index, max)
         self.notifies = []
         self.oneshots = []
+        self.watches = []    # (index, ntx, nrx)
 
     def add(self, spec):
         self.specs.append(spec)
@@ -58,6 +59,10 @@ def gen_objs(rng, focus, wild):
     if want("oneshot", 0.3):
         for _ in range(rng.choice([1, 1, 2])):
             t.oneshots.append(t.add("o"))
+    if want("watch", 0.3):
+        for _ in range(rng.choice([1, 1, 1, 2])):
+            ntx, nrx = rng.choice([1, 1, 2]), rng.choice([1, 1, 2, 2, 3])
+            t.watches.append((t.add("h%d:%d:%d" % (rng.choice([0, 0, 5]), ntx, nrx)), ntx, nrx))
     if not t.specs:
         t.sems.append(t.add("s1"))
     return t
@@ -80,6 +85,14 @@ def gen_program(rng, focus="mix", wild=False, max_bodies=4, max_ops=7):
     for o in t.oneshots:
         own_otx[o] = rng.randrange(nb)
         own_orx[o] = rng.randrange(nb)
+    own_wtx, own_wrx = {}, {}
+    for (w, ntx, nrx) in t.watches:
+        for sl in range(ntx):
+            own_wtx[(w, sl)] = rng.randrange(nb)
+        for sl in range(3):
+            # a slot that is empty at creation belongs to the owner of a sender (who may subscribe into it)
+            own_wrx[(w, sl)] = rng.randrange(nb) if sl < nrx else own_wtx[(w, rng.randrange(ntx))]
+    wrx_live = {(w, sl): sl < nrx for (w, ntx, nrx) in t.watches for sl in range(3)}
     nextval = [1]
     bodies = []
     for b in range(nb):
@@ -94,6 +107,8 @@ def gen_program(rng, focus="mix", wild=False, max_bodies=4, max_ops=7):
         my_tx = [cs for cs in own_tx if own_tx[cs] == b]
         my_otx = [o for o in own_otx if own_otx[o] == b]
         my_orx = [o for o in own_orx if own_orx[o] == b]
+        my_wtx = [k for k in own_wtx if own_wtx[k] == b]
+        my_wrx = [k for k in own_wrx if own_wrx[k] == b]
         dead = set()
         chaninfo = {c: (bd, k) for (c, bd, k, ns) in t.chans}
         is_task = kind[b] == "A"
@@ -128,6 +143,10 @@ def gen_program(rng, focus="mix", wild=False, max_bodies=4, max_ops=7):
                 cats += ["notify"] * 4
             if my_otx or my_orx:
                 cats += ["oneshot"] * 3
+            if my_wtx:
+                cats += ["wtx"] * 4
+            if my_wrx:
+                cats += ["wrx"] * 5
             if thandles or ahandles:
                 cats += ["join"]
             if wild:
@@ -268,6 +287,53 @@ def gen_program(rng, focus="mix", wild=False, max_bodies=4, max_ops=7):
                     dead.add(("orx", o))
                 else:
                     ops.append("%s%d" % (k2, o))
+            elif c == "wtx":
+                w, sl = rng.choice(my_wtx)
+                if ("wtx", w, sl) in dead and not wild:
+                    continue
+                r = rng.random()
+                v = nextval[0]
+                nextval[0] += 1
+                if r < 0.4:
+                    ops.append("ws%d.%d.%d" % (w, sl, v))
+                elif r < 0.55:
+                    ops.append("wm%d.%d.%d.%d" % (w, sl, v, rng.choice([1, 1, 0])))
+                elif r < 0.65:
+                    ops.append("wp%d.%d.%d" % (w, sl, v))
+                elif r < 0.75:
+                    ops.append("wi%d.%d" % (w, sl))
+                elif r < 0.85:
+                    free = [k for k in my_wrx if k[0] == w and not wrx_live[k]]
+                    if free:
+                        k = rng.choice(free)
+                        wrx_live[k] = True
+                        ops.append("wn%d.%d.%d" % (w, sl, k[1]))
+                    else:
+                        ops.append("ws%d.%d.%d" % (w, sl, v))
+                elif r < 0.9:
+                    ops.append("wl%d.%d" % (w, sl))
+                else:
+                    ops.append("wx%d.%d" % (w, sl))
+                    dead.add(("wtx", w, sl))
+            elif c == "wrx":
+                live = [k for k in my_wrx if wrx_live[k] or wild]
+                if not live:
+                    continue
+                w, sl = rng.choice(live)
+                r = rng.random()
+                if r < 0.35:
+                    ops.append("wc%d.%d" % (w, sl))
+                elif r < 0.5:
+                    ops.append("wb%d.%d" % (w, sl))
+                elif r < 0.65:
+                    ops.append("wu%d.%d" % (w, sl))
+                elif r < 0.8:
+                    ops.append("wh%d.%d" % (w, sl))
+                elif r < 0.92:
+                    ops.append("wf%d.%d.%d" % (w, sl, rng.randrange(0, max(2, nextval[0] + 1))))
+                else:
+                    ops.append("wy%d.%d" % (w, sl))
+                    wrx_live[(w, sl)] = False
             elif c == "join":
                 if thandles and (not ahandles or rng.random() < 0.5):
                     h = thandles.pop(0)
@@ -327,13 +393,22 @@ def static_ok(case):
                 key = ("otx", args[0])
             elif pre in ("or", "ot", "oc", "oy"):
                 key = ("orx", args[0])
+            elif pre in ("ws", "wm", "wp", "wx", "wl", "wi"):
+                key = ("wtx", args[0], args[1])
+            elif pre in ("wb", "wu", "wh", "wc", "wf", "wy"):
+                key = ("wrx", args[0], args[1])
+            elif pre == "wn":
+                if users.setdefault(("wtx", args[0], args[1]), bi) != bi:
+                    return False
+                key = ("wrx", args[0], args[2])
             if key:
                 if users.setdefault(key, bi) != bi:
                     return False
             # objects of the right kind
             objarg = {"sd": "c", "bs": "c", "ts": "c", "dt": "c", "rc": "c", "br": "c", "tr": "c", "cr": "c", "dr": "c", "ci": "c",
                       "ac": "s", "ta": "s", "ad": "s", "sc": "s", "si": "s", "lk": "m", "tl": "m", "rd": "w", "wr": "w", "tR": "w", "tW": "w",
-                      "nf": "n", "no": "n", "na": "n", "os": "o", "or": "o", "ot": "o", "oc": "o", "ox": "o", "oy": "o"}
+                      "nf": "n", "no": "n", "na": "n", "ws": "h", "wm": "h", "wp": "h", "wx": "h", "wl": "h", "wi": "h", "wb": "h", "wu": "h",
+                      "wh": "h", "wc": "h", "wf": "h", "wy": "h", "wn": "h", "os": "o", "or": "o", "ot": "o", "oc": "o", "ox": "o", "oy": "o"}
             if pre in objarg:
                 i = int(args[0])
                 if i >= len(specs) or specs[i][0] != objarg[pre]:
